@@ -1,5 +1,6 @@
 import numpy as np
 import pandas as pd
+from copy import deepcopy
 from ..entities.paramStruct import ParamStruct
 from .compute_crop_calendar import compute_crop_calendar
 from typing import TYPE_CHECKING
@@ -116,15 +117,18 @@ def read_model_parameters(
     sim_end_date = clock_struct.simulation_end_date
 
     if crop.harvest_date is None:
-        crop = compute_crop_calendar(
-            crop,
+        # the calendar is computed on a scratch copy: only the length of the
+        # season is needed here, and computing the calendar of the crop itself
+        # twice does not give the same result as computing it once
+        calendar = compute_crop_calendar(
+            deepcopy(crop),
             clock_struct.planting_dates,
             clock_struct.simulation_start_date,
             clock_struct.simulation_end_date,
             clock_struct.time_span,
             weather_df,
         )
-        mature = int(crop.MaturityCD + 30)
+        mature = int(calendar.MaturityCD + 30)
         plant = pd.to_datetime("1990/" + crop.planting_date)
         harv = plant + np.timedelta64(mature, "D")
         new_harvest_date = str(harv.month) + "/" + str(harv.day)
